@@ -53,6 +53,21 @@ struct SheetCase {
     cut: Option<usize>,
 }
 
+/// the container glue of a case: relationship ids, part names, the relationships part, a sheet without relationship
+#[derive(Clone, Debug, PartialEq)]
+struct Cont {
+    /// variant name (for failure signatures): plain | prefixed | absolute | dup
+    tag: String,
+    /// relationship id per sheet (any characters that may stand in an XML attribute)
+    ids: Vec<String>,
+    /// part name below `xl/` per sheet (`<kind folder>/<file>`)
+    parts: Vec<String>,
+    /// the bytes of `xl/_rels/workbook.bin.rels`
+    xml: String,
+    /// name of an additional BrtBundleSh with a NULL relationship id, written first (the reader must skip it)
+    ghost: Option<String>,
+}
+
 #[derive(Clone, Debug, PartialEq)]
 struct Case {
     date1904: bool,
@@ -68,6 +83,8 @@ struct Case {
     raw: Vec<(String, Vec<u8>)>,
     /// shared string items with rich-text runs / phonetic data and foreign records between them (writer seed)
     sstx: Option<u64>,
+    /// `None` = the writer's default container (rId<n>, worksheets/sheet<n>.bin, one relationship per sheet)
+    cont: Option<Cont>,
     /// `-` = well-formed; otherwise the name of the single fault that was injected
     fault: String,
     sheets: Vec<SheetCase>,
@@ -168,7 +185,17 @@ impl Case {
         };
         let spre = if self.spre.is_empty() { "-".to_string() } else { self.spre.iter().map(|(i, p)| format!("{i}:{}", hex(p))).collect::<Vec<_>>().join(",") };
         let raw = if self.raw.is_empty() { "-".to_string() } else { self.raw.iter().map(|(n, b)| format!("{n}:{}", hex(b))).collect::<Vec<_>>().join(",") };
-        let mut s = format!("xlsb d={} xfs={xfs} fmts={fmts} sst={sst} fr={fr} z={} spre={spre} raw={raw} sstx={} fault={}", self.date1904 as u8, self.deflate as u8, self.sstx.map_or("-".to_string(), |x| x.to_string()), self.fault);
+        let mut s = format!("xlsb d={} xfs={xfs} fmts={fmts} sst={sst} fr={fr} z={} spre={spre} raw={raw} sstx={} cont={} fault={}", self.date1904 as u8, self.deflate as u8, self.sstx.map_or("-".to_string(), |x| x.to_string()), match &self.cont {
+            None => "-".to_string(),
+            Some(k) => format!(
+                "{};{};{};{};{}",
+                k.tag,
+                k.ids.iter().map(|x| hex(x.as_bytes())).collect::<Vec<_>>().join(","),
+                k.parts.iter().map(|x| hex(x.as_bytes())).collect::<Vec<_>>().join(","),
+                hex(k.xml.as_bytes()),
+                k.ghost.as_ref().map_or("-".to_string(), |g| hex(g.as_bytes()))
+            ),
+        }, self.fault);
         for sh in &self.sheets {
             s.push_str(&format!(
                 " # {} {} {}",
@@ -246,7 +273,14 @@ impl Case {
                 items: t[3..].iter().map(|x| Fr::parse(x)).collect(),
             });
         }
-        Case { date1904: val("d=") == "1", xfs, fmts, sst, framing, deflate: val("z=") == "1", spre, raw, sstx: head.iter().find_map(|t| t.strip_prefix("sstx=")).and_then(|x| x.parse().ok()), fault: val("fault=").to_string(), sheets }
+        Case { date1904: val("d=") == "1", xfs, fmts, sst, framing, deflate: val("z=") == "1", spre, raw, cont: match head.iter().find_map(|t| t.strip_prefix("cont=")) {
+            None | Some("-") => None,
+            Some(t) => {
+                let f: Vec<&str> = t.split(';').collect();
+                let strs = |x: &str| -> Vec<String> { x.split(',').map(|h| String::from_utf8(unhex(h)).unwrap()).collect() };
+                Some(Cont { tag: f[0].to_string(), ids: strs(f[1]), parts: strs(f[2]), xml: String::from_utf8(unhex(f[3])).unwrap(), ghost: if f[4] == "-" { None } else { Some(String::from_utf8(unhex(f[4])).unwrap()) } })
+            }
+        }, sstx: head.iter().find_map(|t| t.strip_prefix("sstx=")).and_then(|x| x.parse().ok()), fault: val("fault=").to_string(), sheets }
     }
 }
 
@@ -530,13 +564,77 @@ fn build_book(c: &Case, parts: &[Vec<u8>]) -> XlsbBook {
     b.styles_pre = c.spre.clone();
     b.raw_parts = c.raw.clone();
     b.sst_extras = c.sstx;
-    for (sh, p) in c.sheets.iter().zip(parts) {
+    for (i, (sh, p)) in c.sheets.iter().zip(parts).enumerate() {
         let mut s = XlsbSheet::new(&sh.name);
         s.state = sh.state;
         s.raw = Some(p.clone());
+        if let Some(k) = &c.cont {
+            s.part = Some(k.parts[i].clone());
+            s.kind = match k.parts[i].split('/').next() {
+                Some("chartsheets") => xlsbw::SheetKind::Chart,
+                Some("dialogsheets") => xlsbw::SheetKind::Dialog,
+                Some("macrosheets") => xlsbw::SheetKind::Macro,
+                _ => xlsbw::SheetKind::Work,
+            };
+        }
         b.sheets.push(s);
     }
+    if let Some(k) = &c.cont {
+        let mut ids = k.ids.clone();
+        if let Some(g) = &k.ghost {
+            let mut s = XlsbSheet::new(g);
+            s.no_rel = true;
+            b.sheets.insert(0, s);
+            ids.insert(0, "unused".into());
+        }
+        b.rel_ids = Some(ids);
+        b.raw_parts.push(("xl/_rels/workbook.bin.rels".into(), k.xml.clone().into_bytes()));
+    }
     b
+}
+
+/// the events quick-xml delivers for a relationships part under the reader's configuration, in the wire form of
+/// the driver (`rels` / `book` requests)
+fn rels_events(xml: &[u8]) -> String {
+    use quick_xml::events::Event;
+    let h = |b: &[u8]| hex(b);
+    let mut rd = quick_xml::Reader::from_reader(xml);
+    let cfg = rd.config_mut();
+    cfg.check_end_names = false;
+    cfg.trim_text(false);
+    cfg.check_comments = false;
+    cfg.expand_empty_elements = true;
+    let mut out: Vec<String> = vec![];
+    let mut buf = vec![];
+    loop {
+        match rd.read_event_into(&mut buf) {
+            Ok(Event::Start(e)) => {
+                let mut attrs = vec![];
+                for a in e.attributes() {
+                    match a {
+                        Ok(a) => attrs.push(format!("{}={}", h(a.key.as_ref()), h(&a.value))),
+                        Err(_) => {
+                            attrs.push("!".into());
+                            break;
+                        }
+                    }
+                }
+                out.push(format!("S:{}:{}", h(e.name().as_ref()), attrs.join(";")));
+            }
+            Ok(Event::End(e)) => out.push(format!("E:{}", h(e.name().as_ref()))),
+            Ok(Event::Eof) => {
+                out.push("F".into());
+                break;
+            }
+            Err(_) => {
+                out.push("X".into());
+                break;
+            }
+            Ok(_) => out.push("O".into()),
+        }
+        buf.clear();
+    }
+    out.join(" ")
 }
 
 fn kind_name(it: &It) -> String {
@@ -686,7 +784,11 @@ fn run_case(c: &Case, drv: &mut Driver, rep: Option<&mut Counters>) -> Outcome {
                 }
                 return out;
             }
-            out.fails.push(("impl_vs_spec".into(), "open_failed".into(), err_class(&e), "-".into(), "workbook opens".into()));
+            let sig = match &c.cont {
+                Some(k) if k.tag != "plain" => format!("open_failed_{}", k.tag),
+                _ => "open_failed".to_string(),
+            };
+            out.fails.push(("impl_vs_spec".into(), sig, err_class(&e), "-".into(), "workbook opens".into()));
             return out;
         }
         Err(p) => {
@@ -726,6 +828,81 @@ fn run_case(c: &Case, drv: &mut Driver, rep: Option<&mut Counters>) -> Outcome {
             out.fails.push(("impl_vs_spec".into(), if bom { "sst_bom".into() } else { "sst".into() }, got.join(","), "-".into(), want.join(",")));
         }
     }
+    // container glue: the relationships part and the join of `read_workbook`, implementation vs model vs description
+    #[cfg(feature = "hooks")]
+    if c.raw.is_empty() {
+        use calamine::verif_hooks::xlsb as hk;
+        let xml = book.parts().into_iter().find(|(n, _)| n == "xl/_rels/workbook.bin.rels").map(|(_, b)| b).unwrap_or_default();
+        let evs = rels_events(&xml);
+        let tag = c.cont.as_ref().map_or("default".to_string(), |k| k.tag.clone());
+        let got = match guarded(|| hk::c03_relationships(&file)) {
+            Ok(Ok(m)) => {
+                let mut v: Vec<String> = m.iter().map(|(k, t)| format!("{}={}", hex(k), hex(t.as_bytes()))).collect();
+                v.sort();
+                format!("ok {}", if v.is_empty() { "-".into() } else { v.join(",") })
+            }
+            Ok(Err(e)) => format!("err:{}", e.split(|c: char| !c.is_alphanumeric()).next().unwrap_or("?")),
+            Err(_) => "panic".into(),
+        };
+        // the model lists latest first: keep the first of each id, then sort like the map
+        let model = {
+            let r = drv.ask(&format!("rels b {evs}"));
+            match r.strip_prefix("ok ") {
+                Some("-") => "ok -".to_string(),
+                Some(l) => {
+                    let mut seen = std::collections::BTreeMap::new();
+                    for e in l.split(',') {
+                        let (k, t) = e.split_once('=').unwrap();
+                        seen.entry(k.to_string()).or_insert(t.to_string());
+                    }
+                    let mut v: Vec<String> = seen.iter().map(|(k, t)| format!("{k}={t}")).collect();
+                    v.sort();
+                    format!("ok {}", v.join(","))
+                }
+                None => r,
+            }
+        };
+        if got != model {
+            out.fails.push(("impl_vs_model".into(), format!("rels_{tag}"), got.clone(), model.clone(), "-".into()));
+        }
+        // description: every sheet's id maps to its target
+        for (i, _) in c.sheets.iter().enumerate() {
+            let (id, target) = match &c.cont {
+                Some(k) => (k.ids[i].clone(), if k.tag == "absolute" { format!("/xl/{}", k.parts[i]) } else { k.parts[i].clone() }),
+                None => (format!("rId{}", i + 1), book.sheet_path(i + book.sheets.len() - c.sheets.len())),
+            };
+            let want = format!("{}={}", hex(id.as_bytes()), hex(target.as_bytes()));
+            if !got.split(|ch| ch == ' ' || ch == ',').any(|e| e == want) {
+                out.fails.push(("impl_vs_spec".into(), format!("rels_{tag}"), got.clone(), model.clone(), format!("relationship {id} -> {target}")));
+                break;
+            }
+        }
+        if let Ok(wb_part) = book.parts().into_iter().find(|(n, _)| n == "xl/workbook.bin").map(|(_, b)| b).ok_or(()) {
+            let m = drv.ask(&format!("book {} R {evs}", hex(&wb_part)));
+            let impl_book = {
+                let md = wb.sheets_metadata().to_vec();
+                let paths = hk::c03_sheet_paths(&wb);
+                let rows: Vec<String> = md
+                    .iter()
+                    .zip(&paths)
+                    .map(|(s, (_, p))| format!("{}:{:?}:{:?}:{}", hex(s.name.as_bytes()), s.typ, s.visible, hex(p.as_bytes())))
+                    .collect();
+                format!("ok {} {}", hk::c03_is_1904(&wb) as u8, if rows.is_empty() { "-".into() } else { rows.join(" ") })
+            };
+            if m != impl_book {
+                out.fails.push(("impl_vs_model".into(), format!("book_{tag}"), impl_book.clone(), m.clone(), "-".into()));
+            }
+            // description: sheet i resolves to the part written for sheet i
+            let paths = hk::c03_sheet_paths(&wb);
+            for (i, sh) in c.sheets.iter().enumerate() {
+                let want = format!("xl/{}", book.sheet_path(i + book.sheets.len() - c.sheets.len()));
+                if paths.iter().find(|(n, _)| *n == sh.name).map(|(_, p)| p.clone()) != Some(want.clone()) {
+                    out.fails.push(("impl_vs_spec".into(), format!("book_{tag}"), impl_book.clone(), m.clone(), format!("sheet {} -> {want}", sh.name)));
+                    break;
+                }
+            }
+        }
+    }
     let names = wb.sheet_names();
     let want_names: Vec<String> = c.sheets.iter().map(|s| s.name.clone()).collect();
     if !c.raw.is_empty() {
@@ -758,7 +935,7 @@ fn run_case(c: &Case, drv: &mut Driver, rep: Option<&mut Counters>) -> Outcome {
         // cells anywhere in the u32 square; it is reported here, with the file, and the dense range is not built.
         #[cfg(feature = "hooks")]
         {
-            let path = format!("xl/{}", book.sheet_path(i));
+            let path = format!("xl/{}", book.sheet_path(i + book.sheets.len() - c.sheets.len()));
             let recs = guarded(|| calamine::verif_hooks::xlsb::c03_records(&file, &path));
             let got = match &recs {
                 Ok(Ok((recs, trunc))) => format!("{} {}", if *trunc { "io" } else { "ok" }, recs.iter().map(|(t, p)| format!("{t}:{}", hex(p))).collect::<Vec<_>>().join(" ")),
@@ -1195,7 +1372,7 @@ fn gen_sheet(rng: &mut Rng, name: String, nsst: usize, nxf: usize) -> SheetCase 
     SheetCase { name, state: *rng.pick(&[0u32, 0, 0, 1, 2]), items, cut: None }
 }
 
-fn gen_case(rng: &mut Rng) -> Case {
+fn gen_case0(rng: &mut Rng) -> Case {
     let (xfs, fmts) = match rng.below(8) {
         0 => (None, vec![]),
         1 => (Some(vec![]), vec![]),
@@ -1262,9 +1439,107 @@ fn gen_case(rng: &mut Rng) -> Case {
         spre,
         raw: vec![],
         sstx: if nsst > 0 && rng.chance(1, 2) { Some(rng.below(1 << 20)) } else { None },
+        cont: None,
         fault: "-".into(),
         sheets,
     }
+}
+
+const REL_TYPE: &str = "http://schemas.openxmlformats.org/officeDocument/2006/relationships/worksheet";
+
+/// the relationships part and the names it joins, for a given list of sheets; `tag` picks the variant
+fn gen_cont(rng: &mut Rng, nsheets: usize, tag: &str) -> Cont {
+    let id_styles = ["rId{}", "r{}é", "关系{}", "R {}", "rId0{}", "x-{}-ID", "rId{}\u{1F600}"];
+    let style = *rng.pick(&id_styles);
+    let ids: Vec<String> = (0..nsheets).map(|i| style.replace("{}", &(i + 1).to_string())).collect();
+    let parts: Vec<String> = (0..nsheets)
+        .map(|i| {
+            let dir = *rng.pick(&["worksheets", "worksheets", "worksheets", "chartsheets", "dialogsheets", "macrosheets"]);
+            match rng.below(4) {
+                0 => format!("{dir}/sheet{}.bin", i + 1),
+                1 => format!("{dir}/sheet{}.bin", nsheets - i), // the numbering of the parts need not follow the sheets
+                2 => format!("{dir}/feuille é {}.bin", i + 1),
+                _ => format!("{dir}/sub/s{}.bin", i + 1),
+            }
+        })
+        .collect();
+    // parts must be distinct
+    let mut parts = parts;
+    for i in 0..parts.len() {
+        if parts[..i].contains(&parts[i]) {
+            parts[i] = format!("worksheets/u{}.bin", i + 1);
+        }
+    }
+    let (open, close, el) = if tag == "prefixed" {
+        ("<pr:Relationships xmlns:pr=\"http://schemas.openxmlformats.org/package/2006/relationships\">", "</pr:Relationships>", "pr:Relationship")
+    } else {
+        ("<Relationships xmlns=\"http://schemas.openxmlformats.org/package/2006/relationships\">", "</Relationships>", "Relationship")
+    };
+    let mut rels: Vec<String> = vec![];
+    let rel = |rng: &mut Rng, id: &str, target: &str| -> String {
+        let mut attrs = vec![format!("Id=\"{id}\""), format!("Target=\"{target}\"")];
+        if rng.chance(1, 2) {
+            attrs.swap(0, 1);
+        }
+        let pos = rng.below(3) as usize;
+        attrs.insert(pos, format!("Type=\"{REL_TYPE}\""));
+        if rng.chance(1, 4) {
+            attrs.push("TargetMode=\"Internal\"".into());
+        }
+        if rng.chance(1, 2) {
+            format!("<{el} {}/>", attrs.join(" "))
+        } else {
+            format!("<{el} {}></{el}>", attrs.join(if rng.chance(1, 3) { "\n  " } else { " " }))
+        }
+    };
+    for i in 0..nsheets {
+        let target = if tag == "absolute" { format!("/xl/{}", parts[i]) } else { parts[i].clone() };
+        if tag == "dup" {
+            // an earlier relationship with the same id and another target: the later one wins
+            let decoy = if nsheets > 1 { parts[(i + 1) % nsheets].clone() } else { "worksheets/none.bin".to_string() };
+            let r = rel(rng, &ids[i], &decoy);
+            rels.push(r);
+        }
+        let r = rel(rng, &ids[i], &target);
+        rels.push(r);
+    }
+    if tag != "dup" {
+        // the order of the relationships is free
+        rng.shuffle(&mut rels);
+    }
+    // relationships of other parts, anywhere
+    for (id, t) in [("rIdStyles", "styles.bin"), ("rIdSst", "sharedStrings.bin"), ("théme", "theme/theme1.xml")] {
+        if rng.chance(1, 2) {
+            let r = rel(rng, id, t);
+            let at = rng.below(rels.len() as u64 + 1) as usize;
+            rels.insert(at, r);
+        }
+    }
+    let mut xml = String::new();
+    if rng.chance(2, 3) {
+        xml.push_str("<?xml version=\"1.0\" encoding=\"UTF-8\" standalone=\"yes\"?>\n");
+    }
+    xml.push_str(open);
+    for r in &rels {
+        if rng.chance(1, 4) {
+            xml.push_str("\n  ");
+        }
+        if rng.chance(1, 10) {
+            xml.push_str("<!-- Id=\"rId1\" -->");
+        }
+        xml.push_str(r);
+    }
+    xml.push_str(close);
+    Cont { tag: tag.into(), ids, parts, xml, ghost: if rng.chance(1, 4) { Some("Ghost".into()) } else { None } }
+}
+
+fn gen_case(rng: &mut Rng) -> Case {
+    let mut c = gen_case0(rng);
+    if rng.chance(1, 3) {
+        let tag = *rng.pick(&["plain", "plain", "dup", "prefixed", "absolute"]);
+        c.cont = Some(gen_cont(rng, c.sheets.len(), tag));
+    }
+    c
 }
 
 /// inject one structural fault into a well-formed case
@@ -1531,6 +1806,7 @@ fn base_case(data: Vec<It>) -> Case {
         spre: vec![],
         raw: vec![],
         sstx: None,
+        cont: None,
         fault: "-".into(),
         sheets: vec![sheet_of(data)],
     }
@@ -1592,6 +1868,17 @@ fn corpus() -> Vec<Case> {
         let tail = c.sheets[0].items.split_off(at);
         c.sheets[0].items.extend(plain(block));
         c.sheets[0].items.extend(tail);
+        v.push(c);
+    }
+    // container glue: relationships under a namespace prefix, absolute targets, a repeated id, non-ASCII ids
+    // (the first two were defects: /repo c5d32d1, 7b4826f)
+    for (tag, seed) in [("prefixed", 11u64), ("absolute", 12), ("dup", 13), ("plain", 14), ("plain", 15)] {
+        let mut c = base_case(vec![row(0), cell(0, 0, Kind::Bool(1), false)]);
+        let mut s2 = sheet_of(vec![row(1), cell(1, 0, Kind::Real(2.5f64.to_bits()), false)]);
+        s2.name = "Second".into();
+        c.sheets.push(s2);
+        let mut r = Rng::new(seed);
+        c.cont = Some(gen_cont(&mut r, 2, tag));
         v.push(c);
     }
     // shared strings with rich-text runs, phonetic data and foreign records between the items
@@ -2053,6 +2340,15 @@ fn count_case(c: &Case, rep: &mut Counters) {
     }
     if c.sstx.is_some() {
         rep.count("sst_with_rich_phonetic_foreign");
+    }
+    match &c.cont {
+        Some(k) => {
+            rep.count(&format!("container_{}", k.tag));
+            if k.ghost.is_some() {
+                rep.count("container_sheet_without_relationship");
+            }
+        }
+        None => rep.count("container_default"),
     }
     rep.count(match &c.xfs {
         None => "styles_absent",
